@@ -110,6 +110,15 @@ CLAIMED = {
             "Proof that waiting messages enter at the tail and leave from the head, a rotated foreign head keeps the relative "
             "order of the others, and delayed inspection returns the first message of the minimal due time.",
             "Redis window scan (F15) and RabbitMQ ordering not yet under contract."),
+    "C07": ("deductive verification of round-trip harnesses that compose the REAL encode/decode bodies (JSON text abstract, "
+            "IEEE error model for durations), Redis key constructors/parsers over z3 strings with the validators' regexes, "
+            "bucket marker, Job._construct_*, Job.enqueue, get_payload, RabbitMQ on_new_message",
+            "Proof that decode(encode(x)) == x for Parameters/Delay/Result/Retries/ArgsBucket/ResultBucket (durations up to 100 "
+            "years; the same proof fails at 300 years), that every name accepted by VALID_NAME/VALID_ID survives the Redis "
+            "encodings, that a job's fields map one-to-one into key/parameters/payload reference, and that the RabbitMQ consumer "
+            "hands over the published id, topic, queue and priority (after fix F07).",
+            "json.loads/JSONEncoder text, isoformat/fromisoformat and uuid4 by assumed contracts; pydantic arguments delegated; "
+            "Redis enqueue <-> details fetch not yet composed."),
 }
 NOT_APPLICABLE_REASON = "check not built yet (work in progress; see DESIGN.md section 5 for the planned contracts)"
 
